@@ -2,6 +2,7 @@ import KyupyVerif.Proofs.CircObjHistory
 import KyupyVerif.Proofs.CircObjInv
 import KyupyVerif.Proofs.CircObjStats
 import KyupyVerif.Proofs.CircObjSubst
+import KyupyVerif.Proofs.CircObjSubstStatic
 /-! # C09 — circuit graph stays consistent under every edit history
 
 Object of the theorems: the hand-written object-level model `KV.CircObj` (Model/CircObj.lean) of `kyupy/circuit.py`:
@@ -183,9 +184,21 @@ theorem removeDangling_wf {c c' : Circ} {root : Nat} (wf : WFc c) (hroot : root 
 decidable precondition `substPre0`: the node is a cell of the circuit and stays a cell (the designated cell of the
 implementation is not a fork; without a designated cell the node is removed and must not be a port), no line runs from
 the node to itself, and no explicit pin assignment of `substitute` hits a pin that holds a line (`substGuards`,
-evaluated along the run; `substStatic_guards` derives it from structural conditions). No hypothesis on `impl`. -/
+evaluated along the run; `substStatic_pre0` derives it from structural conditions). No hypothesis on `impl`. -/
 theorem substitute_wf0 {c c' : Circ} {i : Nat} {impl : Circ} (wf : WFc c) (hpre : substPre0 c i impl = true)
     (h : substituteObj c i impl = some c') : WFc0 c' := KV.CircObj.substituteObj_wf0 wf.toWFc0 hpre h
+
+/-- the run-time pin guards follow from structure: on a well-formed host, `substStatic` (the node is a cell and stays
+one / is not a port when it gets removed, no self loop, the implementation is a well-formed circuit whose port list has no
+duplicates and whose designated cell is not a port) implies `substPre0`.  Nothing is evaluated along the run. -/
+theorem substStatic_pre0 {c : Circ} {i : Nat} {impl : Circ} (wf : WFc c) (hst : substStatic c i impl = true) :
+    substPre0 c i impl = true := KV.CircObj.substPre0_of_static wf.toWFc0 hst
+
+/-- hence: `substitute` on well-formed host and implementation under the structural precondition keeps everything of
+`WFc` except possibly gap-freeness of fork outputs — for every arity, unconnected pins, ignored inputs, outputs read
+internally, removal of dangling logic included -/
+theorem substitute_wf0_static {c c' : Circ} {i : Nat} {impl : Circ} (wf : WFc c) (hst : substStatic c i impl = true)
+    (h : substituteObj c i impl = some c') : WFc0 c' := substitute_wf0 wf (substStatic_pre0 wf hst) h
 
 /-- ... and `WFc` when in addition the fork outputs of the result are gap-free (`substPre` = `substPre0` + `forksFull` of
 the result; D30 in known_findings.json is a use where the real code leaves a gap) -/
@@ -254,6 +267,8 @@ example : ((run2 empty (exHistory2.take 21)).map fun c => (c.nodes.length, c.lin
   decide +kernel
 example : ((run2 empty exHistory2).map fun c => (c.nodes.length, c.lines.length, invOK c)) = some (8, 8, true) := by
   decide +kernel
+/-- the structural precondition holds for the substitution in this history -/
+example : ((run2 empty (exHistory2.take 13)).map fun c => substStatic c 2 exImpl) = some true := by decide +kernel
 
 /-- D30: an open output pin whose implementation line leaves a fork below another kept output: every other part of the
 precondition holds (`substPre0`, so the result satisfies `WFc0`), but the copied fork has a gap and `substPre` is false -/
